@@ -199,11 +199,7 @@ def enum_member(kind, value):
         # the class name is a function of the value only, and it spells the value out: like a user's own
         # Enum the class is importable by name (module __getattr__ below re-creates it on demand), so a URL
         # that stores a member (encoded=True) can be pickled here and restored in another process
-        raw = repr(value).encode("utf-8", "surrogatepass").hex()
-        if len(raw) > 160:
-            import hashlib as _hl
-
-            raw = "h" + _hl.blake2b(repr(key).encode("utf-8", "surrogatepass"), digest_size=6).hexdigest()
+        raw = repr(value).encode("utf-8", "surrogatepass").hex()  # however long: another process must be able to invert it
         name = "Mix%s_%s" % (kind.capitalize(), raw)
         cls = _enum.Enum(name, {"ALT": value}, type=int if kind == "int" else str, module=__name__, qualname=name)
         globals()[name] = cls
@@ -213,7 +209,7 @@ def enum_member(kind, value):
 
 def __getattr__(name):
     """PEP 562: unpickling a Mix* Enum member in a process that has not created its class yet."""
-    if name.startswith(("MixStr_", "MixInt_")) and not name.split("_", 1)[1].startswith("h"):
+    if name.startswith(("MixStr_", "MixInt_")):
         kind = "str" if name.startswith("MixStr_") else "int"
         try:
             import ast as _ast
